@@ -1,5 +1,6 @@
 //! Kani harnesses (external crate, path dependency on /repo).
 #![feature(allocator_api)]
+#![recursion_limit = "512"]
 #![allow(unused, static_mut_refs)]
 #[path = "../../common/stubs.rs"]
 pub mod stubs;
@@ -18,3 +19,5 @@ mod c03;
 mod c04;
 #[cfg(kani)]
 mod c05;
+#[cfg(kani)]
+mod cupd;
